@@ -1356,9 +1356,12 @@ func (d *Data) updateBlockMaxLabel(v dvid.VersionID, block *labels.Block) {
 	}
 	if changed {
 		d.mlMu.Lock()
-		d.MaxLabel[v] = curMax
-		if err := d.persistMaxLabel(v); err != nil {
-			dvid.Errorf("updateBlockMaxLabel of data %q: %v\n", d.DataName(), err)
+		// recheck under the write lock since a concurrent update could have raised it further.
+		if lockedMax, found := d.MaxLabel[v]; !found || curMax > lockedMax {
+			d.MaxLabel[v] = curMax
+			if err := d.persistMaxLabel(v); err != nil {
+				dvid.Errorf("updateBlockMaxLabel of data %q: %v\n", d.DataName(), err)
+			}
 		}
 		if curMax > d.MaxRepoLabel {
 			d.MaxRepoLabel = curMax
